@@ -28,6 +28,9 @@ pub struct Req {
     pub tcp: bool,
     pub opcode: u8,
     pub edns: bool,
+    /// EDNS version put in the OPT record (non-zero: the response is BADVERS, extended RCODE 16)
+    #[serde(default)]
+    pub edns_version: u8,
     /// 0 = normal, 1 = QR bit set (response-less), 2 = QDCOUNT 2 (response-less), 3 = QDCOUNT 0 (FORMERR)
     pub shape: u8,
     /// simulated milliseconds before this request
@@ -124,7 +127,7 @@ fn build(req: &Req, id: u16) -> Vec<u8> {
         _ => m.questions.push(q),
     }
     if req.edns {
-        m.additional.push(wire::opt_rr(1232, 0, 0, &[]));
+        m.additional.push(wire::opt_rr(1232, req.edns_version, 0, &[]));
     }
     wire::encode(&m)
 }
@@ -149,6 +152,7 @@ fn gen_req(r: &mut SplitMix) -> Req {
         tcp: chance(r, 12),
         opcode: if chance(r, 88) { 0 } else { *pick(r, &[2u8, 4, 5]) },
         edns: chance(r, 30),
+        edns_version: if chance(r, 12) { *pick(r, &[1u8, 2, 255]) } else { 0 },
         shape: if chance(r, 90) { 0 } else { range(r, 1, 3) as u8 },
         gap_ms: range(r, 0, 300),
     }
@@ -357,7 +361,8 @@ fn run_case(scn: &Scn, hash_key: u64) -> Option<(String, String, bool)> {
         let category = refn
             .as_ref()
             .and_then(|r| wire::decode(r).ok())
-            .map(|m| match m.rcode() {
+            // the category follows the *extended* RCODE: BADVERS (16) has 0 in the header's four bits
+            .map(|m| match m.ext_rcode() {
                 0 => 0u8,
                 3 => 1,
                 _ => 2,
